@@ -15,7 +15,7 @@ import traceback
 
 ROOT = os.environ.get('VERIF_ROOT', '/verif')
 APPS = os.path.dirname(os.path.abspath(__file__))
-VH = os.path.join(ROOT, 'target/h/release/vh')
+VH = os.environ.get('E4_VH') or os.path.join(ROOT, 'target/h/release/vh')
 OUT = os.environ.get('E4_OUT_DIR') or ROOT      # evidence/ and replays/ live here (scratch dir for mutation demos)
 KF_FILE = os.environ.get('VERIF_KF_FILE', os.path.join(ROOT, 'known_findings.json'))
 JOBS = int(os.environ.get('E4_JOBS', '32'))
